@@ -244,18 +244,35 @@ func c11iProperty(t *rapid.T, st *Stats, sc c11iSched) {
 		case 2:
 			done := make(chan int, 1)
 			started := false
-			sc.pauseAt(root, k, func() {
-				started = true
-				go func() { done <- R2.run(srv).code }()
-				select {
-				case c := <-done:
-					o.inGap = true
-					done <- c
-				case <-time.After(100 * time.Millisecond): // R2 waits for something R1 holds: it finishes after R1
-				}
-			})
-			o.r1 = R1.run(srv).code
-			sc.steps()
+			// R1 runs on a goroutine of its own (the pause point is installed there: lock acquisitions are counted per
+			// goroutine) under a watchdog: two requests that wait for each other are a failure, not a hung test
+			r1done := make(chan int, 1)
+			inGap := make(chan bool, 1)
+			go func() {
+				sc.pauseAt(root, k, func() {
+					started = true
+					go func() { done <- R2.run(srv).code }()
+					select {
+					case c := <-done:
+						inGap <- true
+						done <- c
+					case <-time.After(100 * time.Millisecond): // R2 waits for something R1 holds: it finishes after R1
+					}
+				})
+				c := R1.run(srv).code
+				sc.steps()
+				r1done <- c
+			}()
+			select {
+			case o.r1 = <-r1done:
+			case <-time.After(30 * time.Second):
+				o.r1 = -1
+				return o, steps
+			}
+			select {
+			case o.inGap = <-inGap:
+			default:
+			}
 			if !started {
 				go func() { done <- R2.run(srv).code }()
 			}
@@ -266,6 +283,9 @@ func c11iProperty(t *rapid.T, st *Stats, sc c11iSched) {
 			}
 		}
 		sc.end()
+		if o.r1 == -1 || o.r2 == -1 {
+			return o, steps // a request that never came back: the server is not observed (it may block), the caller reports it
+		}
 		o.state = u.observe(srv)
 		_ = srv.Close()
 		if store == "dir" {
@@ -300,6 +320,9 @@ func c11iProperty(t *rapid.T, st *Stats, sc c11iSched) {
 }
 
 func c11iJudge(fail func(string, string, ...any), R1, R2 c11iReq, a, b, c c11iOutcome, both bool, k int, isTypePair bool) {
+	if c.r1 == -1 {
+		fail("request-stuck", "R1, paused before step %d while R2 ran, did not finish within 30 s: the two requests wait for each other", k)
+	}
 	if c.r2 == -1 {
 		fail("request-stuck", "R2 did not finish within 20 s after R1 had returned")
 	}
